@@ -40,6 +40,10 @@ TEMPLATES = {
                  level="day", tc=dt.timedelta(hours=6)),
     "discrete": dict(rel="{year}/{month}/{day}/{hour}{minute}.dat",
                      level="day"),
+    # coverage from the time_coverage argument, name without wildcard (the
+    # name of an instant can be computed)
+    "extended": dict(rel="{year}/{month}/{day}/e{hour}{minute}.dat",
+                     level="day", tc=dt.timedelta(hours=9)),
     "fullend_day": dict(rel="{year}/{month}/{day}/f{hour}{minute}" + FULL_END
                         + ".dat", level="day"),
 }
